@@ -122,8 +122,9 @@ PROPS["C06"]["level_text"] = (
     "inspectors, delegation of TransverseMercator(exact = true) incl. extendp and Reverse, constructor domain, UTM() instances, the TransverseMercatorProj tool against the API. "
     "Partial: the nanometre error bounds of the floating-point code and the size of the O(n⁷) remainder over ℝ are not theorems (covered by the oracle); that the Newton "
     "loops do leave through their convergence test, and everything about the elliptic functions themselves, is not proved (kernels); derivative consistency of zeta/sigma "
-    "with their coded Jacobians is proved only algebraically (as the Lee formulas), not as derivatives. Open findings F90 (exact form, e² ≤ 1e-4: k'² recomputed with cancellation) and F91 (exact Reverse, e² ≥ 0.15: "
-    "sigmainv wanders / hits the iteration cap); both with a decidable class, a witness in the corpus and a candidate patch (design-probes/G06).")
+    "with their coded Jacobians is proved only algebraically (as the Lee formulas), not as derivatives. Finding F90 (exact form, e² ≤ 1e-4: k'² of the second EllipticFunction object recomputed with cancellation) is "
+    "repaired in /repo (5c8be26) and guarded by the oracle complementary-modulus of op tmxc; open finding F91 (exact Reverse, e² ≥ 0.15: sigmainv wanders / hits "
+    "the iteration cap) has a decidable class, a witness in the corpus and a mitigating candidate patch (design-probes/G06).")
 PROPS["C06"]["level_note"] = (
     "b1coeff/alpcoeff/betcoeff, the series order and TransverseMercatorExact::numit_ regenerated from the sources each run; hand-written wrapper model over the exact F64 "
     "softfloat; polymorphic (RealLike) models of the series kernel and of the whole exact form (zeta, dwdzeta, sigma, dwdsigma, zetainv0, sigmainv0, Newton loop, Scale, "
